@@ -4,6 +4,7 @@
 //!          deviation(preemption)-bounded depth-first exploration of the schedules.
 use crate::ctx::*;
 use crate::dom::*;
+use crate::etok::Ctx;
 use crate::report::*;
 use crate::sut::*;
 use rayon::prelude::*;
@@ -15,14 +16,14 @@ use std::time::{Duration, Instant};
 #[derive(Clone, Debug)]
 pub struct Call {
     pub ev: &'static str,
-    pub expr: &'static str,
+    pub expr: String,
     pub at: String,
 }
 
-fn c(ev: &'static str, expr: &'static str, at: &str) -> Call {
+fn c(ev: &'static str, expr: &str, at: &str) -> Call {
     Call {
         ev,
-        expr,
+        expr: expr.to_string(),
         at: at.to_string(),
     }
 }
@@ -75,6 +76,26 @@ pub fn alphabet() -> Vec<Call> {
         c("number", "6!+w(2)", "I0"),
         c("number", "1%0", "I0"),
         c("number", "2+", "I0"),
+        // failures that leave the tokenizer / parser in the middle of something (open brackets, a pending
+        // operator, an argument list), inputs that such left-overs would turn from Err into Ok, and a
+        // well-formed bracketed expression
+        c("f64", "((2+", &f(0.0)),
+        c("f64", "1)", &f(0.0)),
+        c("f64", "pow(2,", &f(0.0)),
+        c("f64", "(1+2)*3", &f(0.0)),
+        c("i64", "((2+", "0"),
+        c("i64", "1)", "0"),
+        c("i64", "(1+2)*3", "0"),
+        c("decimal", "((2+", &d("0")),
+        c("decimal", "1)", &d("0")),
+        c("decimal", "(1+2)*3", &d("0")),
+        c("complex", "((2+", &cp(0.0, 0.0)),
+        c("complex", "1)", &cp(0.0, 0.0)),
+        c("complex", "(1+2)*3", &cp(0.0, 0.0)),
+        c("number", "((2+", "I0"),
+        c("number", "1)", "I0"),
+        c("number", "min(2,", "I0"),
+        c("number", "(1+2)*3", "I0"),
     ]
 }
 
@@ -94,11 +115,11 @@ fn exec_dom<D: Dom>(expr: &str, at: &str) -> String {
 
 pub fn exec(call: &Call) -> String {
     match call.ev {
-        "f64" => exec_dom::<F64>(call.expr, &call.at),
-        "i64" => exec_dom::<I64>(call.expr, &call.at),
-        "decimal" => exec_dom::<Dec>(call.expr, &call.at),
-        "complex" => exec_dom::<Cpx>(call.expr, &call.at),
-        _ => exec_dom::<Num>(call.expr, &call.at),
+        "f64" => exec_dom::<F64>(&call.expr, &call.at),
+        "i64" => exec_dom::<I64>(&call.expr, &call.at),
+        "decimal" => exec_dom::<Dec>(&call.expr, &call.at),
+        "complex" => exec_dom::<Cpx>(&call.expr, &call.at),
+        _ => exec_dom::<Num>(&call.expr, &call.at),
     }
 }
 
@@ -116,6 +137,19 @@ pub fn replay_detail(detail: &serde_json::Value) -> Option<bool> {
         for (pos, i) in idx.iter().enumerate() {
             let iso = fresh(&[*i]).ok()?[0].clone();
             println!("call #{} {}: in this history {} / isolated {}", pos + 1, show_call(&a[*i]), got[pos], iso);
+            if got[pos] != iso {
+                bad = true;
+            }
+        }
+        return Some(bad);
+    }
+    if let Some(h) = detail.get("history_calls").and_then(|h| h.as_array()) {
+        let calls: Vec<Call> = h.iter().filter_map(|x| x.as_str().and_then(decode_call)).collect();
+        let got = fresh_calls(&calls).ok()?;
+        let mut bad = false;
+        for (pos, c) in calls.iter().enumerate() {
+            let iso = fresh_calls(std::slice::from_ref(c)).ok()?[0].clone();
+            println!("call #{} {}: in this history {} / isolated {}", pos + 1, show_call(c), got[pos], iso);
             if got[pos] != iso {
                 bad = true;
             }
@@ -147,18 +181,45 @@ fn show_call(call: &Call) -> String {
 }
 
 /// `vx hist i j k ...`: run the calls in order in this (fresh) process and print one outcome per line
-pub fn hist_main(idx: &[usize]) {
+pub fn hist_main(args: &[String]) {
     let a = alphabet();
-    for i in idx {
-        println!("{}", exec(&a[*i]));
+    for x in args {
+        match x.parse::<usize>() {
+            Ok(i) => println!("{}", exec(&a[i])),
+            Err(_) => println!("{}", exec(&decode_call(x).expect("call encoding"))),
+        }
     }
 }
 
+/// `call:<evaluator>:<placeholder encoding>:<expression>` (the expression comes last: it may contain colons)
+fn encode_call(c: &Call) -> String {
+    format!("call:{}:{}:{}", c.ev, c.at, c.expr)
+}
+
+fn decode_call(x: &str) -> Option<Call> {
+    let mut it = x.splitn(4, ':');
+    if it.next()? != "call" {
+        return None;
+    }
+    let ev = refmodel::vocab::Ev::from_name(it.next()?)?.name();
+    let at = it.next()?.to_string();
+    let expr = it.next()?.to_string();
+    Some(Call { ev, expr, at })
+}
+
 fn fresh(indices: &[usize]) -> Result<Vec<String>, String> {
+    fresh_args(indices.iter().map(|i| i.to_string()).collect())
+}
+
+fn fresh_calls(calls: &[Call]) -> Result<Vec<String>, String> {
+    fresh_args(calls.iter().map(encode_call).collect())
+}
+
+fn fresh_args(args: Vec<String>) -> Result<Vec<String>, String> {
     let exe = std::env::current_exe().map_err(|e| e.to_string())?;
     let out = std::process::Command::new(exe)
         .arg("hist")
-        .args(indices.iter().map(|i| i.to_string()))
+        .args(args)
         .output()
         .map_err(|e| e.to_string())?;
     if !out.status.success() {
@@ -262,6 +323,110 @@ fn e_hist(cx: &RunCtx) {
         "depth": depth, "fresh_process_histories": n + n * n, "distinct_isolated_outcomes": distinct.len(),
         "wall_s": t0.elapsed().as_secs_f64(), "stats": st.to_json()}),
     );
+}
+
+// ---------------------------------------------------------------- E-HIST sweep
+
+/// Every string of the token-level enumeration (well-formed or not, failing at any stage and at any position)
+/// as the *earlier* call of a history `[s, probe]` and as the *later* call of a history `[probe, s]`, for
+/// every probe call of the same evaluator: the probe must return its isolated first-time result and `s` must
+/// return what it returned before. Failures that stop the tokenizer or the parser in the middle of the input
+/// (open brackets, a pending argument list, a half-read literal) are all among the enumerated strings.
+fn e_sweep_dom<D: Dom>(cx: &RunCtx, a: &[Call], iso: &[String]) {
+    if !cx.wants(D::EV.name()) {
+        return;
+    }
+    let probes: Vec<usize> = (0..a.len()).filter(|i| a[*i].ev == D::EV.name()).collect();
+    let depth = if cx.tier == Tier::Quick { 3 } else { 4 };
+    let at = D::default_at();
+    let show = |r: &Run<D::V>| -> String {
+        let out = match &r.out {
+            Out::Ok(v) => format!("ok:{}", D::enc(v)),
+            Out::Err => "err".into(),
+            Out::Panic(m) => format!("panic:{}", m),
+            Out::Budget(n) => format!("budget:{}", n),
+        };
+        format!("{} steps={}", out, r.steps)
+    };
+    let report = |calls: Vec<Call>, pos: usize, want: &str, got: &str, rec: &Recorder| {
+        let how = match (fresh_calls(&calls), fresh_calls(&calls[pos..pos + 1])) {
+            (Ok(h), Ok(i)) if h.get(pos) != i.first() => "confirmed: a fresh process running exactly this history differs from a fresh process running the call alone",
+            (Ok(_), Ok(_)) => "only inside the long in-process history, not with this history alone",
+            _ => "fresh-process confirmation failed",
+        };
+        rec.add(Violation {
+            kind: Kind::Relation,
+            ev: calls[pos].ev.to_string(),
+            input: calls.iter().map(show_call).collect::<Vec<_>>().join(" ; "),
+            at_enc: String::new(),
+            at_show: String::new(),
+            at_rust: String::new(),
+            expected: format!("call #{} returns {} — what it returns without the other call", pos + 1, want),
+            observed: format!("{} ({})", got, how),
+            engine: "E-HIST sweep".into(),
+            family: None,
+            detail: json!({"history_calls": calls.iter().map(encode_call).collect::<Vec<_>>(), "position": pos}),
+        });
+    };
+    let cb = |c: &Ctx<D>, st: &mut Stats, rec: &Recorder| {
+        let me = Call {
+            ev: D::EV.name(),
+            expr: c.s.to_string(),
+            at: D::enc(&at),
+        };
+        let first = show(&run::<D>(c.s, &at));
+        st.executions += 1;
+        for &pi in &probes {
+            // [s, probe]
+            let _ = run::<D>(c.s, &at);
+            let got = exec(&a[pi]);
+            st.executions += 2;
+            st.relations += 1;
+            if got != iso[pi] {
+                report(vec![me.clone(), a[pi].clone()], 1, &iso[pi], &got, rec);
+            } else {
+                st.relations_both_ok += 1;
+            }
+            // [probe, s]
+            let again = show(&run::<D>(c.s, &at));
+            st.executions += 1;
+            st.relations += 1;
+            if again != first {
+                report(vec![a[pi].clone(), me.clone()], 1, &first, &again, rec);
+            } else {
+                st.relations_both_ok += 1;
+            }
+        }
+    };
+    let none: [Kind; 0] = [];
+    crate::checks::tok_run::<D>(
+        cx,
+        "E-HIST sweep: every enumerated string before and after each probe call",
+        crate::alpha::sigma_class(D::EV),
+        depth,
+        9,
+        crate::checks::ONLY_DEFAULT,
+        &none,
+        Some(&cb),
+        2400,
+    );
+}
+
+fn e_sweep(cx: &RunCtx) {
+    let a = alphabet();
+    let iso: Vec<String> = (0..a.len())
+        .into_par_iter()
+        .map(|i| fresh(&[i]).map(|v| v[0].clone()).unwrap_or_else(|e| format!("machinery:{}", e)))
+        .collect();
+    if let Some(bad) = iso.iter().find(|s| s.starts_with("machinery:")) {
+        eprintln!("E-HIST sweep: cannot obtain isolated results: {}", bad);
+        std::process::exit(2);
+    }
+    e_sweep_dom::<F64>(cx, &a, &iso);
+    e_sweep_dom::<I64>(cx, &a, &iso);
+    e_sweep_dom::<Dec>(cx, &a, &iso);
+    e_sweep_dom::<Cpx>(cx, &a, &iso);
+    e_sweep_dom::<Num>(cx, &a, &iso);
 }
 
 // ---------------------------------------------------------------- E-SCHED
@@ -685,6 +850,7 @@ pub fn c16(cx: &RunCtx) {
     cx.assume("isolated first-time results come from fresh child processes (E-HIST) or from a scheduler-free run on the exploring thread (E-SCHED)");
     crate::sut::WATCHDOG_ON.store(false, std::sync::atomic::Ordering::Relaxed);
     e_hist(cx);
+    e_sweep(cx);
     e_sched(cx);
     smoke(cx);
     crate::sut::WATCHDOG_ON.store(true, std::sync::atomic::Ordering::Relaxed);
